@@ -433,7 +433,14 @@ TABLE = {
 
 # what rounds 4 and 5 of the seeded changes and the line-coverage run added to each specification (appended to `text`)
 ADDENDA = {
-    "C02": "Futures that are born resolved (static set_value / set_exception / set_not_value, also future<T&>) are replayed for every waiter kind.",
+    "C01": "The ARGUMENTS of a refused call are state: over a move-only, instance-counted payload a call that reports failure leaves its rvalue argument "
+           "un-moved and constructs nothing (ArgConsumedOnlyByWinner, PayloadBuiltOnce), for operator(), set_value, bind and async::start(promise); a named promise "
+           "move-assigned over the promise stays alive and is called afterwards (must be refused); the callback-promise (make_promise) is a waiter kind of its own.",
+    "C15": "Several signal objects; each listener's emitter object is state and can be re-bound (copy/move construction or assignment from an emitter of the same or "
+           "another signal, before/after a disconnect: RebindFollowsSource, AwaitAliveSubscribes); every emission form incl. the argument-less and the "
+           "multi-argument one is compared by VALUE at the listeners; connect() on a state-less (moved-from) handle must free the callback (ConnectDead).",
+    "C20": "Every form of global operator new (plain, aligned, nothrow) is counted; the future replays also run over an over-aligned (alignas(64)) tracked payload.",
+    "C02": "Futures that are born resolved (static set_value / set_exception / set_not_value, also future<T&>) are replayed for every waiter kind; a named promise move-assigned over a promise with parked waiters releases them with no-value at the assignment and the source is refused afterwards.",
     "C05": "Native entry through install_queue_and_call / create_suspend_point with a function that returns or THROWS after readying "
            "coroutines (FullDrain on the exceptional exit), coroutine bodies left by an exception, and the coroutine's own handle (co_await self()) "
            "held and awaited together with other ready coroutines at every position (OwnHandleUse) are part of the program alphabet.",
@@ -464,7 +471,7 @@ ADDENDA = {
     "C16": "Degenerate publishes are actions of the spec and replayed: the empty batch (a self-loop that must wake nobody), a batch longer than the window, "
            "publish on a closed publisher, subscription ahead of the stream; the range is passed as vector, list or pointer pair.",
     "C17": "The blocking entry points of shared_future itself are waiting forms of the spec (wait / sync+value / force_sync / join / force_wait, the force_ forms "
-           "inside coroutine mode) with ThrowsAsDocumented; forms rotate over all blocking-waiter paths, two free-form configurations replay every form.",
+           "inside coroutine mode) with ThrowsAsDocumented; forms rotate over all blocking-waiter paths, two free-form configurations replay every form. The factory of every round has an outcome (pending / ready value / exception / no-value / throws) and a promise may be destroyed by stack unwinding.",
     "C18": "Registration and resolution carry an execution context (plain, an RAII guard during stack unwinding, a catch handler, the promise destroyed at "
            "scope exit or by unwinding - ~promise as its own code site); no action reads the context, so CallbackOnce / RightOutcome / HelperFreedOnce hold in every one.",
 }
